@@ -3,7 +3,7 @@
 //!     compile_error_to_diagnostic (its `range` must be span_to_range's);
 //!   crates/incan_syntax/src/diagnostics.rs: get_line_info + the caret arithmetic, observed through
 //!     the public format_error (location line, source line, caret line are parsed back).
-//! Input lines (doc = comma-separated decimal scalar values, `-` = empty document):
+//! Input lines (doc = comma-separated decimal scalar values, `c*n` = n copies of c, `-` = empty document):
 //!   o2p <doc> <offset>          -> `l c`
 //!   p2o <doc> <line> <char>     -> `<offset>` | `-1`
 //!   rng <doc> <start> <end>     -> `sl sc el ec`
@@ -14,9 +14,14 @@
 //! a diagnostic whose range differs from span_to_range as `X ...`.
 use crate::common::{catch, each_line};
 use incan::frontend::ast::Span;
-use incan::frontend::diagnostics::{format_error, CompileError};
+use incan::frontend::diagnostics::{format_error, CompileError, ErrorKind};
 use incan::lsp::diagnostics::{compile_error_to_diagnostic, offset_to_position, position_to_offset, span_to_range};
-use tower_lsp::lsp_types::{Position, Url};
+use futures_util::StreamExt;
+use serde_json::{json, Value};
+use tower_lsp::jsonrpc::Request;
+use tower_lsp::lsp_types::{DiagnosticSeverity, Position, Url};
+use tower_lsp::LspService;
+use tower_service::Service;
 
 const TRAP: i64 = -9;
 
@@ -24,9 +29,18 @@ fn parse_doc(s: &str) -> String {
     if s == "-" {
         return String::new();
     }
-    s.split(',')
-        .map(|x| char::from_u32(x.parse::<u32>().expect("scalar")).expect("not a scalar value"))
-        .collect()
+    let mut out = String::new();
+    for item in s.split(',') {
+        let (c, n) = match item.split_once('*') {
+            Some((c, n)) => (c, n.parse::<usize>().expect("repeat count")),
+            None => (item, 1),
+        };
+        let ch = char::from_u32(c.parse::<u32>().expect("scalar")).expect("not a scalar value");
+        for _ in 0..n {
+            out.push(ch);
+        }
+    }
+    out
 }
 
 fn o2p(src: &str, o: usize) -> Result<[i64; 2], String> {
@@ -47,10 +61,23 @@ fn p2o(src: &str, l: u32, c: u32) -> Result<i64, String> {
 fn rng(src: &str, a: usize, b: usize, uri: &Url) -> Result<Result<[i64; 4], String>, String> {
     catch(|| {
         let r = span_to_range(src, a, b);
-        let e = CompileError::new("m".to_string(), Span::new(a, b));
+        let e = mk_error(a, b);
         let d = compile_error_to_diagnostic(&e, src, uri);
         if d.range != r {
             return Err(format!("X span_to_range={:?} diagnostic.range={:?}", r, d.range));
+        }
+        // every related-information location (one per note and hint) carries the same range
+        let rel = d.related_information.clone().unwrap_or_default();
+        if rel.len() != e.notes.len() + e.hints.len() || rel.iter().any(|x| x.location.range != r) {
+            return Err(format!("X related information ranges {:?} differ from {:?}", rel, r));
+        }
+        let want = match e.kind {
+            ErrorKind::Error | ErrorKind::Syntax | ErrorKind::Type => DiagnosticSeverity::ERROR,
+            ErrorKind::Warning => DiagnosticSeverity::WARNING,
+            ErrorKind::Lint => DiagnosticSeverity::HINT,
+        };
+        if d.severity != Some(want) {
+            return Err(format!("X severity {:?} for kind {:?}", d.severity, e.kind));
         }
         Ok([
             r.start.line as i64,
@@ -59,6 +86,20 @@ fn rng(src: &str, a: usize, b: usize, uri: &Url) -> Result<Result<[i64; 4], Stri
             r.end.character as i64,
         ])
     })
+}
+
+/// an error whose kind, notes and hints vary with the span (all five kinds, 0..2 notes, 0..2 hints)
+fn mk_error(a: usize, b: usize) -> CompileError {
+    let k = (a % 5 + b % 7) % 5;
+    let mut e = CompileError::new("m".to_string(), Span::new(a, b));
+    e.kind = [ErrorKind::Error, ErrorKind::Syntax, ErrorKind::Type, ErrorKind::Warning, ErrorKind::Lint][k];
+    for i in 0..(a % 3) {
+        e = e.with_note(format!("n{}", i));
+    }
+    for i in 0..(b % 3) {
+        e = e.with_hint(format!("h{}", i));
+    }
+    e
 }
 
 struct Caret {
@@ -72,16 +113,21 @@ struct Caret {
 /// format_error and parse back what get_line_info and the caret arithmetic produced
 fn car(src: &str, a: usize, b: usize) -> Result<Caret, String> {
     catch(|| {
-        let e = CompileError::new("m".to_string(), Span::new(a, b));
+        let e = mk_error(a, b);
         let out = format_error("f", src, &e);
         let ls: Vec<&str> = out.split('\n').collect();
-        assert!(ls.len() >= 5, "format_error: unexpected shape {:?}", out);
+        assert!(ls.len() == 6 + e.notes.len() + e.hints.len(), "format_error: unexpected shape {:?}", out);
         let loc = ls[1].split("-->\x1b[0m f:").nth(1).expect("location line");
         let mut lc = loc.split(':');
         let line: i64 = lc.next().unwrap().parse().expect("line");
         let col: i64 = lc.next().unwrap().parse().expect("col");
         let gutter = " |\x1b[0m ";
         let tpos = ls[3].find(gutter).expect("source line") + gutter.len();
+        // the gutter shows the line number, the two neighbouring gutters are padded to its width
+        let w = line.to_string().len();
+        assert!(ls[3].starts_with(&format!("  \x1b[36m{} |", line)), "gutter of the source line {:?}", ls[3]);
+        assert!(ls[2] == format!("  \x1b[36m{} |\x1b[0m", " ".repeat(w)), "empty gutter {:?}", ls[2]);
+        assert!(ls[4].starts_with(&format!("  \x1b[36m{} |", " ".repeat(w))), "caret gutter {:?}", ls[4]);
         let text: Vec<i64> = ls[3][tpos..].chars().map(|c| c as i64).collect();
         let cpos = ls[4].find(gutter).expect("caret line") + gutter.len();
         let rest = &ls[4][cpos..];
@@ -173,9 +219,101 @@ fn table(src: &str, k: u32, uri: &Url) -> String {
     s
 }
 
+// ----------------------------------------------------------------------------- through the server
+// `lsp {"text": source, "positions": [[line, character], ...]}`: open the text in a REAL
+// IncanLanguageServer (tower_lsp::LspService, in process), collect the published diagnostics
+// (range, severity, message, related ranges), ask hover and definition at every position, and run
+// lexer/parser/type checker directly on the same text for the spans the diagnostics come from.
+
+fn range_json(r: &Value) -> Value {
+    json!([r["start"]["line"], r["start"]["character"], r["end"]["line"], r["end"]["character"]])
+}
+
+async fn lsp_call(service: &mut LspService<incan::lsp::IncanLanguageServer>, req: Request) -> Value {
+    match service.call(req).await {
+        Ok(Some(resp)) => {
+            let (_, body) = resp.into_parts();
+            match body {
+                Ok(v) => v,
+                Err(e) => json!({"error": e.to_string()}),
+            }
+        }
+        Ok(None) => Value::Null,
+        Err(_) => json!({"error": "service exited"}),
+    }
+}
+
+async fn lsp_case(case: &Value) -> Value {
+    let text = case["text"].as_str().unwrap_or("");
+    let uri = "file:///c19-no-such-dir/main.incn";
+    let (mut service, mut socket) = LspService::new(incan::lsp::IncanLanguageServer::new);
+    let init = Request::build("initialize").id(1).params(json!({"capabilities": {}})).finish();
+    let caps = lsp_call(&mut service, init).await;
+    lsp_call(&mut service, Request::build("initialized").params(json!({})).finish()).await;
+    let open = Request::build("textDocument/didOpen")
+        .params(json!({"textDocument": {"uri": uri, "languageId": "incan", "version": 1, "text": text}}))
+        .finish();
+    lsp_call(&mut service, open).await;
+    let mut diags: Vec<Value> = Vec::new();
+    while let std::task::Poll::Ready(Some(req)) = futures_util::poll!(socket.next()) {
+        if req.method() != "textDocument/publishDiagnostics" {
+            continue;
+        }
+        let p = req.params().cloned().unwrap_or(Value::Null);
+        if p["uri"].as_str() != Some(uri) {
+            diags.push(json!({"foreign_uri": p["uri"]}));
+            continue;
+        }
+        diags.clear(); // the last publication for the document wins
+        for d in p["diagnostics"].as_array().cloned().unwrap_or_default() {
+            let rel: Vec<Value> = d["relatedInformation"]
+                .as_array()
+                .map(|a| a.iter().map(|x| range_json(&x["location"]["range"])).collect())
+                .unwrap_or_default();
+            diags.push(json!({"range": range_json(&d["range"]), "severity": d["severity"], "message": d["message"], "related": rel}));
+        }
+    }
+    let mut answers: Vec<Value> = Vec::new();
+    for (i, pos) in case["positions"].as_array().cloned().unwrap_or_default().iter().enumerate() {
+        let params = json!({"textDocument": {"uri": uri}, "position": {"line": pos[0], "character": pos[1]}});
+        let h = lsp_call(&mut service, Request::build("textDocument/hover").id(100 + 2 * i as i64).params(params.clone()).finish()).await;
+        let d = lsp_call(&mut service, Request::build("textDocument/definition").id(101 + 2 * i as i64).params(params).finish()).await;
+        let hr = if h.get("range").map(|r| r.is_object()).unwrap_or(false) { range_json(&h["range"]) } else { Value::Null };
+        let dr = if d.get("range").map(|r| r.is_object()).unwrap_or(false) { range_json(&d["range"]) } else { Value::Null };
+        answers.push(json!([hr, dr, h.get("error").cloned().unwrap_or(Value::Null), d.get("error").cloned().unwrap_or(Value::Null)]));
+    }
+    // the same text through the front end directly: (stage, [[start, end, kind, message], ...])
+    let show = |es: &[CompileError]| -> Vec<Value> {
+        es.iter().map(|e| json!([e.span.start, e.span.end, e.kind.to_string(), e.message])).collect()
+    };
+    let direct = match incan::lexer::lex(text) {
+        Err(es) => json!(["lex", show(&es)]),
+        Ok(tokens) => match incan::parser::parse(&tokens) {
+            Err(es) => json!(["parse", show(&es)]),
+            Ok(ast) => match incan::typechecker::TypeChecker::new().check_program(&ast) {
+                Err(es) => json!(["check", show(&es)]),
+                Ok(()) => json!(["ok", []]),
+            },
+        },
+    };
+    json!({"diags": diags, "answers": answers, "direct": direct,
+           "position_encoding": caps["capabilities"]["positionEncoding"]})
+}
+
 pub fn run(_args: &[String]) {
     let uri = Url::parse("file:///f.incn").expect("url");
+    let rt = tokio::runtime::Builder::new_current_thread().enable_all().build().expect("runtime");
     each_line(|line| {
+        if let Some(js) = line.strip_prefix("lsp ") {
+            let case: Value = match serde_json::from_str(js) {
+                Ok(v) => v,
+                Err(e) => return json!({"error": format!("bad case: {}", e)}).to_string(),
+            };
+            return match std::panic::catch_unwind(std::panic::AssertUnwindSafe(|| rt.block_on(lsp_case(&case)))) {
+                Ok(v) => v.to_string(),
+                Err(_) => json!({"error": "panic"}).to_string(),
+            };
+        }
         let p: Vec<&str> = line.split_whitespace().collect();
         let src = parse_doc(p[1]);
         match p[0] {
